@@ -1,5 +1,6 @@
 import FimVerif.Drivers.StoreCodec
 import FimVerif.Model.AGraph
+import FimVerif.Model.ARef
 open Lean FimVerif.Proto FimVerif.Store FimVerif.StoreCodec
 
 /-- requests: `["S", op…]` shared-store model, `["D", op…]` one-graph-per-id model, `["A", op…]` the reference
@@ -9,6 +10,7 @@ structure St where
   s : Store
   d : FimVerif.DStore.DStore
   a : List (String × AGraph)
+  r : ARef := ARef.init
 
 def getA (st : St) (g : String) : AGraph := (FimVerif.AMap.get g st.a).getD AGraph.empty
 
@@ -20,8 +22,19 @@ def contentToJson (A : AGraph) : Json :=
   Json.mkObj [("nodes", .arr (A.nodes.map propsToJson).toArray),
               ("edges", .arr (A.edges.map fun e => Json.arr #[optValToJson e.1, optValToJson e.2.1, propsToJson e.2.2]).toArray)]
 
+def keyToJson (k : Key) : Json := .arr #[optValToJson k.1, optValToJson k.2]
+
+/-- the whole reference store: node dictionaries and links between keys -/
+def arefToJson (R : ARef) : Json :=
+  Json.mkObj [("nodes", .arr (R.nodes.map propsToJson).toArray),
+              ("edges", .arr (R.edges.map fun e => Json.arr #[keyToJson e.1, keyToJson e.2.1, propsToJson e.2.2]).toArray)]
+
 def stepReq (st : St) (j : Json) : St × Json :=
   match j with
+  | .arr #[.str "R", .str "reset"] => ({ st with r := ARef.init }, ok .null)
+  | .arr #[.str "R", .str "snap"] => (st, ok (arefToJson st.r))
+  | .arr #[.str "R", .str "content", .str g] => (st, ok (contentToJson (ARef.view st.r g)))
+  | .arr #[.str "S", .str "abs"] => (st, ok (arefToJson (absS st.s)))
   | .arr #[.str "S", .str "snap"] => (st, ok (snapToJson st.s))
   | .arr #[.str "S", .str "reset"] => ({ st with s := init }, ok .null)
   | .arr #[.str "D", .str "snap"] => (st, ok (dsnapToJson st.d))
@@ -34,6 +47,7 @@ def stepReq (st : St) (j : Json) : St × Json :=
       if !op.WF then (st, err "bad-args")
       else if w == "S" then let r := step op st.s; ({ st with s := r.2 }, resToJson r.1)
       else if w == "D" then let r := FimVerif.DStore.step op st.d; ({ st with d := r.2 }, resToJson r.1)
+      else if w == "R" then let r := ARef.step op st.r; ({ st with r := r.2 }, resToJson r.1)
       else if w == "A" then
         if !AGraph.covers op then (st, err "not-covered")
         else
